@@ -645,12 +645,12 @@ class GeoPolygon(PolygonBase, SimpleShapeMixin):
             raise ValueError(f'Invalid WKT Polygon: {wkt_str}')
 
         linear_rings = _RE_LINEAR_RING.findall(wkt_str)
-        coords = cls._parse_wkt_linear_ring(wkt_str, linear_rings[0])
+        coords = cls._parse_wkt_linear_ring(wkt_str, linear_rings[0], closed=True)
 
         holes = []
         if len(linear_rings) > 1:
             holes = [
-                GeoPolygon(cls._parse_wkt_linear_ring(wkt_str, linear_ring))
+                GeoPolygon(cls._parse_wkt_linear_ring(wkt_str, linear_ring, closed=True))
                 for linear_ring in linear_rings[1:]
             ]
 
@@ -1566,7 +1566,7 @@ class GeoLineString(SingleShapeBase, LineLikeMixin, SimpleShapeMixin):
 
         linear_rings = _RE_LINEAR_RING.findall(wkt_str)
         return GeoLineString(
-            cls._parse_wkt_linear_ring(wkt_str, linear_rings[0]),
+            cls._parse_wkt_linear_ring(wkt_str, linear_rings[0], min_points=2),
             dt=dt,
             properties=properties,
         )
